@@ -31,12 +31,15 @@ RULE = ("cases are drawn from random.Random(VERIF_SEED).  hosvd: dense data of o
         "shapes, short rank vectors, 1-way data for tucker_als).  A case is non-trivial when the implementation "
         "accepted it and the data is not constant; distinct = distinct case hash")
 ASSUMPTIONS = [
-    "scipy.linalg.eigh returns orthonormal eigenpairs of the symmetric matrix it is given (checked on every recorded call: symmetry, |V'V - I| <= 1e-10, |ZV - VD| <= 1e-9 |Z|)",
-    "tensor.nvecs returns r orthonormal columns spanning a dominant eigenspace of the Gram matrix of the unfolding (checked on every recorded call against numpy eigvalsh: captured energy >= top-r energy - 1e-8 trace)",
-    "Ky Fan's maximum principle (the sum of the r largest eigenvalues of a symmetric matrix is the maximum of trace(Q'ZQ) over orthonormal Q) is an explicit hypothesis of C10_tucker_fit_monotone_partial, not proved here",
+    "scipy.linalg.eigh returns orthonormal eigenpairs of the symmetric matrix it is given (Tk.EighContract; checked on every recorded call: symmetry, |V'V - I| <= 1e-10, |ZV - VD| <= 1e-9 |Z|; satisfiable: C10_contracts_satisfiable)",
+    "tensor.nvecs returns r orthonormal columns spanning a dominant eigenspace of the Gram matrix of the unfolding (Tk.NvecsContract / Tk.NvecsLeading; checked on every recorded call against numpy eigvalsh: captured energy >= top-r energy - 1e-8 trace)",
+    "Ky Fan's maximum principle (the sum of the r largest eigenvalues of a symmetric matrix is the maximum of trace(Q'ZQ) over orthonormal Q) is an explicit hypothesis of C10_tucker_fit_monotone_partial, not proved here; all other theorems, including the full HOSVD error bound, are unconditional given the service contracts",
+    "the theorems speak about successful runs of the model; C10_hosvd_accepts / C10_tucker_accepts show that valid requests are accepted (hosvd: all-automatic with tol^2 < 1 on non-zero data, or all ranks given; tucker_als: order >= 2)",
     "tensor.ttm and to_tenmat enter the model by their entry-wise meaning (tied to the real methods by the exact integer family `dense_ops`; the code-level equivalence is C02 / C01)",
     "IEEE rounding is not modelled: whole runs are replayed by the model at Float with the recorded service outputs and compared at relative 1e-9; the reported fit is compared through its square (1 - fit)^2, because sqrt(|a - b|) amplifies rounding when the fit is (nearly) exact",
     "np.argsort ties: the model sorts stably; cases whose eigenvalue list has exact ties skip the comparison of the sorting permutation",
+    "runs of tucker_als with different iteration limits are compared with each other only when the longer run reproduces the shorter one (a requested rank above the rank of the projected unfolding leaves columns of a factor arbitrary and ARPACK's start vector is not reproducible); monotonicity of the fit along each single run is always checked from the recorded factors",
+    "hosvd with mixed ranks (some given, some 0) may raise when a user truncation leaves no eigenvalue sum above the threshold; such a rejection is accepted when the model rejects at the same place (outside the property's quantifier)",
 ]
 EXHAUSTIVE = {"quick": False, "thorough": False}
 
@@ -500,7 +503,7 @@ class HosvdTrace(Family):
 
     name = "hosvd_trace"
     theorems = ("C10_hosvd_orthonormal", "C10_hosvd_core", "C10_hosvd_rank_auto", "C10_hosvd_rank_given",
-                "C10_hosvd_error_bound")
+                "C10_hosvd_error_bound", "C10_hosvd_accepts", "C10_hosvd_rank_given_pinned_counterexample")
     malformed = False
 
     def gen(self, rng, tier):
@@ -780,7 +783,7 @@ class TuckerTrace(Family):
 
     name = "tucker_trace"
     theorems = ("C10_tucker_orthonormal", "C10_tucker_core", "C10_tucker_fit", "C10_tucker_iters_le",
-                "C10_tucker_fit_monotone_partial")
+                "C10_tucker_fit_monotone_partial", "C10_tucker_accepts")
     malformed = False
 
     def problem(self, rng, tier, nmin=2):
@@ -1091,10 +1094,10 @@ class TuckerMalformed(TuckerTrace):
                     N = 3
                 c["rank"], c["rank_conv"] = [1, 1], "list"
             elif what == "rank-long":
+                # rejected since 11afd42 (`len(rank) != N`)
                 c["rank"], c["rank_conv"] = full + [1], "list"
                 if c["init"] == "list":
                     c["init_list"] = mk_list([(c["shape"][n], full[n]) for n in range(N)])
-                c["expect_reject"] = False
             else:
                 c["shape"] = [rng.randint(2, 5)]
                 c["data"] = [rng.gauss(0, 1) for _ in range(c["shape"][0])]
